@@ -12,6 +12,7 @@ import (
 
 	"github.com/kubewharf/kubebrain/pkg/backend"
 	"github.com/kubewharf/kubebrain/pkg/backend/coder"
+	"github.com/kubewharf/kubebrain/pkg/storage"
 	"github.com/kubewharf/kubebrain/pkg/storage/memkv"
 
 	"verif/internal/harness"
@@ -26,7 +27,7 @@ func init() {
 		Plan: func(tier string) Plan {
 			return Plan{Level: "exploration", NCases: pick(tier, 200, 40000), Batch: 4, CaseTimeout: 60,
 				Rule: "one case = 2000 generated (key, revision) inputs over the alphabet bytes > '$' (empty, 1-byte, 0xff-terminated, all-0xff, prefix-related pairs, pairs differing in the last byte; revisions 0, 1, 2^63, 2^64-1, random) checked for round trip and pairwise order, " +
-					"plus one key set loaded as index+version records into the real memkv engine and 60 raw ranges / prefixes iterated through the computed internal bounds (and through Backend.List for PrefixEnd bounds). " +
+					"plus one key set loaded as index+version records into the real memkv engine and 60 raw ranges / prefixes iterated through the computed internal bounds (and through Backend.List for PrefixEnd bounds and raw ranges between stored keys, on memkv, on a TiKV mock pre-split into regions and on a memkv reporting several partitions). " +
 					"non-trivial = case containing >=1 prefix-related pair, >=1 0xff-terminated key and >=1 extreme revision; distinct by input digest",
 				Assumptions: []string{"keys are drawn from the documented alphabet only (every byte greater than '$')"},
 				MinConcl:    pick(tier, 180, 38000)}
@@ -315,16 +316,33 @@ func runC10(c *harness.Case) {
 		c.Stat("ranges", 1)
 	}
 	// the same through the real Backend.List with PrefixEnd bounds, including an all-0xff prefix
-	eng, _ := harness.NewEngine("memkv")
-	n := harness.NewNode(harness.NodeOpts{KV: eng.KV})
+	// (engine: memkv; in every third case a TiKV mock pre-split into regions, in every third a memkv reporting several
+	// partitions - borders at records of the keys about to be stored - so that the bounds also have to survive the
+	// clamping of engine partitions to the requested range)
+	var cand []string
+	for i := 0; i < 12; i++ {
+		if k := genKey(r, pool); len(k) > 0 {
+			cand = append(cand, harness.Prefix+"/"+string(k))
+		}
+	}
+	var eng *harness.Engine
+	var bkv storage.KvStorage
+	switch c.Index % 3 {
+	case 1, 2:
+		var ok bool
+		if bkv, eng, _, ok = partitionedStore(c, newRand(r.Int63()), []string{"", "tikv", "memkv"}[c.Index%3], append(cand, harness.Prefix+"/\xff\xff"), 1000, 14); !ok {
+			return
+		}
+	default:
+		eng, _ = harness.NewEngine("memkv")
+		bkv = eng.KV
+	}
+	defer eng.Close()
+	c.AddSet("list_engines", []string{"memkv", "tikv/split", "memkv/parts"}[c.Index%3])
+	n := harness.NewNode(harness.NodeOpts{KV: bkv})
 	defer n.Retire()
 	var bkeys []string
-	for i := 0; i < 12; i++ {
-		k := genKey(r, pool)
-		if len(k) == 0 {
-			continue
-		}
-		full := harness.Prefix + "/" + string(k)
+	for _, full := range cand {
 		resp, err := n.Create(full, []byte("v"))
 		if err == nil && resp.Succeeded {
 			bkeys = append(bkeys, full)
@@ -371,6 +389,41 @@ func runC10(c *harness.Case) {
 			return
 		}
 		c.Stat("list_prefix_checked", 1)
+	}
+	// raw ranges between stored keys (and their neighbours): exactly the keys in [a,b)
+	for i := 0; i < 25 && len(bkeys) > 1; i++ {
+		a, b := bkeys[r.Intn(len(bkeys))], bkeys[r.Intn(len(bkeys))]
+		// (bounds stay inside the documented alphabet, bytes > '$': a stored key or a stored key extended by such a byte)
+		switch r.Intn(4) {
+		case 0:
+			a += "%"
+		case 1:
+			b += "%"
+		}
+		if a >= b {
+			a, b = b, a
+		}
+		if a == b {
+			continue
+		}
+		resp, err := n.B.List(harness.Ctx, &proto.RangeRequest{Key: []byte(a), End: []byte(b)})
+		if err != nil {
+			continue
+		}
+		var want, got []string
+		for _, k := range bkeys {
+			if k >= a && k < b {
+				want = append(want, k)
+			}
+		}
+		for _, kv := range resp.Kvs {
+			got = append(got, string(kv.Key))
+		}
+		if !eqStr(got, want) {
+			c.Violatef("C10 range-bounds-enclose-wrong-set via=Backend.List", map[string]interface{}{"start": fmt.Sprintf("%q", a), "end": fmt.Sprintf("%q", b)}, "List(%q,%q) returned %q; the stored keys inside are %q", a, b, got, want)
+			return
+		}
+		c.Stat("list_ranges_checked", 1)
 	}
 	c.Fingerprint(nPrefixPairs > 0 && nFF > 0 && nExtreme > 0, c.Seed, c.Index, len(all), nPrefixPairs)
 	if c.Index < 2 {
